@@ -40,6 +40,18 @@ def constructor_call(model: Model, module: str, t, depth=0):
     if t[0] != "call" or depth > 3:
         return None
     f, args, kwargs = t[1], t[2], dict(t[3])
+
+    def through_partial(base):
+        # partial(Class, **kw)(**kw2)
+        if base[0] == "call" and base[1][0] == "ext" and base[1][1] == "functools" and base[1][2] == "partial" and len(base[2]) == 1:
+            inner = constructor_call(model, module, ("call", base[2][0], (), base[3]), depth + 1)
+            if inner is not None and not args:
+                kw = dict(inner[1])
+                kw.update(kwargs)
+                return inner[0], kw
+        return None
+    if f[0] == "call":
+        return through_partial(f)          # a partial object held in a local variable (or used in place)
     if f[0] == "global":
         r = model.resolve_global(f[1], f[2])
         if r and r[0] == "class" and r[2] in ("_Quoter", "_Unquoter"):
@@ -53,12 +65,7 @@ def constructor_call(model: Model, module: str, t, depth=0):
             except CannotFold:
                 return None
             # P = partial(Class, **kw);  P(**kw2)
-            if base[0] == "call" and base[1][0] == "ext" and base[1][1] == "functools" and base[1][2] == "partial" and len(base[2]) == 1:
-                inner = constructor_call(model, module, ("call", base[2][0], (), base[3]), depth + 1)
-                if inner is not None and not args:
-                    kw = dict(inner[1])
-                    kw.update(kwargs)
-                    return inner[0], kw
+            return through_partial(base)
     return None
 
 
@@ -130,6 +137,46 @@ def consistent(state, cfg, attr_map):
 
 def cfg_leaves(cfg, attr_map):
     return {("attr", ("param", "self"), a): cfg[p] for a, p in attr_map.items()}
+
+
+def derived_attr_leaves(model: Model, init_qual: str, cfg: dict):
+    """Attributes the constructor computes from its arguments (e.g. a safe set assembled once in __init__): their value under
+    a configuration, folded from the constructor's own stores on the path the configuration takes."""
+    fi = model.func(init_qual)
+    try:
+        r = analyze(model, fi, merge=False)
+    except AnalysisError:
+        r = analyze(model, fi)
+    pl = {("param", p): v for p, v in cfg.items()}
+    out = {}
+    for st in list(r.falls) + [s_ for s_, _v, _n in r.returns]:
+        f = Folder(model, pl)
+        try:
+            if not all(bool(f.fold(k)) == v for k, v in st.facts.items()):
+                continue
+        except CannotFold:
+            continue
+        for (obj, attr), val in st.heap.items():
+            if obj != ("param", "self") or val[0] == "param":
+                continue
+            try:
+                out[("attr", ("param", "self"), attr)] = f.fold(val)
+            except CannotFold:
+                pass
+    # lazily memoised attributes: `self.X = <pure function of the constructor-time attributes>` stored by another method
+    cls = fi.cls
+    for name, m in model.methods(fi.module, cls).items():
+        if name == "__init__":
+            continue
+        for e in analyze(model, m).by_kind("store_attr"):
+            key = ("attr", ("param", "self"), e.attr)
+            if e.obj != ("param", "self") or key in out:
+                continue
+            try:
+                out[key] = Folder(model, {**pl, **out, **cfg_leaves(cfg, self_attr_params(model, init_qual))}).fold(e.value)
+            except CannotFold:
+                pass
+    return out
 
 
 def fact_in(state, x):
@@ -283,6 +330,16 @@ class PyQuoter:
                 self.sites.append(site)
                 ctx.ob(rule, self.QUAL, cons, ok, "escape window re-emitted without validation: " + why, w, sample=why)
                 continue
+            # (d') the canonical spelling stored in the escape table is written back
+            tabref = self._escape_table(a) if (e.method == "extend" and a[0] in ("item", "sub")) else None
+            if tabref is not None:
+                ok, why = self.validated(e.state, tabref[0])
+                if getattr(self, "_bad_tables", None):
+                    ok, why = False, "; ".join(f"escape table {n}: {'; '.join(p[:3])}" for n, p in sorted(self._bad_tables.items()))
+                site.update(cls="REEMIT")
+                self.sites.append(site)
+                ctx.ob(rule, self.QUAL, cons, ok, "escape re-emitted from the escape table without a successful look-up: " + why, w, sample=why)
+                continue
             # (e) decoded escape
             d = self.decoded_char(a)
             if d is not None:
@@ -291,7 +348,7 @@ class PyQuoter:
                 neg = [s for s, v in fact_in(e.state, ch) if not v]
                 okv, why = self.validated(e.state, window)
                 if getattr(self, "_bad_tables", None):
-                    okv, why = False, f"escape table {sorted(self._bad_tables)} does not map each b'%XX' (upper case) to chr(0xXX)"
+                    okv, why = False, "; ".join(f"escape table {n}: {'; '.join(p[:3])}" for n, p in sorted(self._bad_tables.items()))
                 site.update(cls="DEC", char=ch, pos=pos, neg=neg)
                 self.sites.append(site)
                 ctx.ob(rule, self.QUAL, cons, bool(pos) and bool(neg) and okv,
@@ -347,9 +404,48 @@ class PyQuoter:
         except CannotFold:
             return None
 
+    def _window_is_uppercased(self):
+        """Are letters upper-cased when they enter the escape window (`unit - 32` under a lower-case test)?"""
+        for e in self.r.by_kind("mutate"):
+            if e.on_name == self.win and e.method == "append" and e.args and e.args[0][0] == "binop" and e.args[0][1] == "Sub" \
+                    and self.is_unit(e.args[0][2]) and e.args[0][3] == ("const", 32):
+                return True
+        return False
+
+    def _table_verdict(self, table):
+        """Is the folded escape table right?  keys b'%XX'; a str among the value (or the value) = chr(0xXX); a bytes among the
+        value = the upper-case spelling; every escape the window can hold is a key: all 256 upper-case ones when the window
+        upper-cases its letters, every case spelling of the two digits otherwise."""
+        problems = []
+        hexd = b"0123456789abcdefABCDEF"
+        for k, v in table.items():
+            if not (isinstance(k, (bytes, bytearray)) and len(k) == 3 and k[:1] == b"%" and k[1] in hexd and k[2] in hexd):
+                problems.append(f"key {k!r} is not '%' + two hex digits")
+                continue
+            vals = v if isinstance(v, (tuple, list)) else (v,)
+            code = int(bytes(k[1:]).decode(), 16)
+            for x in vals:
+                if isinstance(x, str) and x != chr(code):
+                    problems.append(f"{bytes(k)!r} decodes to {x!r}")
+                elif isinstance(x, (bytes, bytearray)) and bytes(x) != bytes(k).upper():
+                    problems.append(f"{bytes(k)!r} is re-emitted as {bytes(x)!r}")
+                elif isinstance(x, int) and not isinstance(x, bool) and x != code:
+                    problems.append(f"{bytes(k)!r} has code {x}")
+        if self._window_is_uppercased():
+            need_ = {b"%%%02X" % i for i in range(256)}
+        else:
+            need_ = {b"%" + bytes([a, b]) for a in hexd for b in hexd}
+        missing = sorted(need_ - {bytes(k) for k in table})
+        if missing:
+            problems.append(f"{len(missing)} escape spelling(s) are not recognised, e.g. {missing[:3]}")
+        return problems
+
     def _escape_table(self, t):
-        """t = TABLE.get(bytes(W)) / TABLE[bytes(W)] with TABLE = {b"%XX": chr(0xXX)} for all 256 values, upper-case keys only:
-        returns (W, is_get). A table with any other content is not this idiom."""
+        """t = TABLE.get(K) / TABLE[K] (optionally one element of a tuple value) where TABLE is a module-level dict keyed by
+        escapes and K is the escape window (or bytes(window)): returns (window, is_get). The table's content is judged by
+        _table_verdict and becomes part of the verdict of the sites that use it."""
+        while t[0] in ("item",) or (t[0] == "sub" and t[2][0] == "const" and isinstance(t[2][1], int) and t[1][0] in ("sub", "call")):
+            t = t[1]
         if t[0] == "call" and t[1][0] == "attr" and t[1][2] == "get" and len(t[2]) == 1:
             tab, key, is_get = t[1][1], t[2][0], True
         elif t[0] == "sub":
@@ -365,11 +461,10 @@ class PyQuoter:
         table = self._folded(tab)
         if not isinstance(table, dict):
             return None
-        # the idiom is recognised by its shape; whether the table is the right one is part of the verdict
-        good = len(table) == 256 and all(table.get(b"%%%02X" % i) == chr(i) for i in range(256))
-        self.__dict__.setdefault("_bad_tables", set())
-        if not good:
-            self._bad_tables.add(show(tab))
+        self.__dict__.setdefault("_bad_tables", {})
+        probs = self._table_verdict(table)
+        if probs:
+            self._bad_tables[show(tab)] = probs
         return key, is_get
 
     def decoded_char(self, a):
@@ -477,7 +572,9 @@ class PyQuoter:
                            sample="unit - 32 under unit in a..z")
                 else:
                     ctx.ob(rule, self.QUAL, cons, False, "escape window receives something other than the current input byte", w)
-        ctx.ob(rule, self.QUAL, "upper-casing of hex digits entering the window", upper_seen,
+        # a table keyed by every case spelling of the digits (judged by _table_verdict) needs no upper-casing
+        by_table = hasattr(self, "_bad_tables") and not self._bad_tables
+        ctx.ob(rule, self.QUAL, "upper-casing of hex digits entering the window", upper_seen or by_table,
                "lower-case hex digits are not upper-cased before validation (a lower-case escape would be "
                "treated as malformed)", where(self.fi, self.fi.node), sample="unit - 32 branch present")
 
@@ -649,6 +746,7 @@ class PyQuoter:
     def policy(self, cfg):
         """-> dict(literal=set(str), decodable=set(str), plus=bool, escapes=bool) for a configuration."""
         leaves = cfg_leaves(cfg, self.attr_map)
+        leaves.update(derived_attr_leaves(self.model, "_quoting_py._Quoter.__init__", cfg))
         fold = Folder(self.model, leaves)
 
         def chars(t):
